@@ -186,33 +186,36 @@ def parseAnonLabel : Str → Option Nat
   | 'L' :: ds => if ds.all Char.isDigit then parseDec ds else none
   | _ => none
 
+/-- `parent.own` → (some parent text, own); no dot → (none, text) -/
+def splitParent (s : Str) : Option Str × Str :=
+  match splitAt? '.' s with
+  | some (p, rest) => (some p, rest)
+  | none => (none, s)
+
+/-- the parent a `parent.` prefix names: an anonymous label `L7` or a named global label -/
+def resolveParent (ls : List LabelEntry) : Option Str → Option (Option Nat)
+  | none => some none
+  | some p =>
+    match parseAnonLabel p with
+    | some pid => if (ls[pid]?).any (fun pe => pe.name.isEmpty) then some (some pid) else none
+    | none => (labelIdByName ls none p).map some
+
+/-- the label's own part: `L7@name` (anonymous label that carries a name), `L7` (only without parent), or a name -/
+def resolveOwn (ls : List LabelEntry) (hasParentTxt : Bool) (parent : Option Nat) (own : Str) : Option Nat :=
+  match splitAt? '@' own with
+  | some (lid, name) =>
+    (parseAnonLabel lid).bind fun id =>
+      if (ls[id]?).any (fun le => le.type = 0 ∧ le.name == name ∧ le.parent == parent ∧ !name.isEmpty) then some id else none
+  | none =>
+    match parseAnonLabel own with
+    | some id => if !hasParentTxt ∧ (ls[id]?).any (fun le => le.name.isEmpty) then some id else none
+    | none => labelIdByName ls parent own
+
 def parseLabel (env : Env) (s : Str) : Option Nat :=
   match env.labels with
   | none => parseAnonLabel s
   | some ls =>
-    -- `L7@name` (anonymous label that carries a name), possibly after `parent.`
-    let (parentTxt, own) : Option Str × Str :=
-      match splitAt? '.' s with
-      | some (p, rest) => (some p, rest)
-      | none => (none, s)
-    let parent? : Option (Option Nat) :=
-      match parentTxt with
-      | none => some none
-      | some p =>
-        match parseAnonLabel p with
-        | some pid => if (ls[pid]?).any (fun pe => pe.name.isEmpty) then some (some pid) else none
-        | none => (labelIdByName ls none p).map some
-    match parent? with
-    | none => none
-    | some parent =>
-      match splitAt? '@' own with
-      | some (lid, name) =>
-        (parseAnonLabel lid).bind fun id =>
-          if (ls[id]?).any (fun le => le.type = 0 ∧ le.name == name ∧ le.parent == parent ∧ !name.isEmpty) then some id else none
-      | none =>
-        match parseAnonLabel own with
-        | some id => if parentTxt.isNone ∧ (ls[id]?).any (fun le => le.name.isEmpty) then some id else none
-        | none => labelIdByName ls parent own
+    (resolveParent ls (splitParent s).1).bind fun parent => resolveOwn ls (splitParent s).1.isSome parent (splitParent s).2
 
 /-! ## registers -/
 
@@ -403,15 +406,16 @@ def interpA64Base (env : Env) (tok : Str) : Option PMem :=
   | some r => some { terms := [(r, 1)], home := home }
   | none => if home then none else (parseLabel env name).map fun id => { label := some id }
 
-/-- `[base]`, `[base, off]`, `[base, off]!`, `[base], off`, `[base, index ext n]`, `[base], index` -/
-def parseA64Mem (env : Env) (s : Str) : Option PMem :=
-  match lexPieces isA64MemDelim s.length s with
+/-- the pieces of `[base]`, `[base, off]`, `[base, off]!`, `[base], off`, `[base, index ext n]`, `[base], index` -/
+def interpA64Pieces (env : Env) : List Piece → Option PMem
   | (some '[', b) :: rest =>
     (interpA64Base env b).bind fun m =>
     match rest with
     | (some ']', []) :: (some ',', []) :: r2 => interpA64Tail env { m with mode := 2 } true ((some ',', []) :: r2)
     | _ => interpA64Tail env m false rest
   | _ => none
+
+def parseA64Mem (env : Env) (s : Str) : Option PMem := interpA64Pieces env (lexPieces isA64MemDelim s.length s)
 
 def parseA64RegList (env : Env) (s : Str) : Option (List PReg) := do
   let s ← stripPrefix? ['{'] s
@@ -458,78 +462,96 @@ def parseMnemonic (s : Str) : Str × List Str :=
     | some (stem, suf) => (stem ++ suf, alts.map (stem ++ ·))
     | none => (first, alts)
 
-/-- suffixes after an operand: ` {k1}{z}`, ` {z}`, ` {1to8}` -/
-def parseOperandSuffixes (env : Env) (o : POperand) (s : Str) : Option POperand :=
-  let rec go : Nat → POperand → Str → Option POperand
-    | 0, _, _ => none
-    | fuel + 1, o, s =>
-      let s := trimL s
-      if s.isEmpty then some o else
-      match s with
-      | '{' :: rest =>
-        match splitAt? '}' rest with
-        | some (body, tail) =>
-          if body == ['z'] then (if o.zeroing then none else go fuel { o with zeroing := true } tail)
-          else match stripPrefix? "1to".toList body with
-            | some n => (parseDec n).bind fun k => if o.bcast ≠ 0 ∨ !(k = 2 ∨ k = 4 ∨ k = 8 ∨ k = 16 ∨ k = 32 ∨ k = 64) then none else go fuel { o with bcast := k } tail
-            | none => (parseReg env body).bind fun r => if o.kmask.isSome ∨ o.zeroing then none else go fuel { o with kmask := some r } tail
-        | none => none
-      | _ => none
-  go 8 o s
+def x86PrefixWordsL : List Str := x86PrefixWords.map String.toList
 
-/-- main operand text ends where a ` {` suffix starts (outside brackets) -/
-def splitOperandSuffix (s : Str) : Str × Str :=
-  let rec go : Str → Nat → Str → Str × Str
-    | [], _, cur => (cur.reverse, [])
-    | ' ' :: '{' :: rest, 0, cur => (cur.reverse, ' ' :: '{' :: rest)
-    | c :: rest, depth, cur =>
-      let depth := if c = '[' ∨ c = '{' then depth + 1 else if c = ']' ∨ c = '}' then depth - 1 else depth
-      go rest depth (c :: cur)
-  go s 0 []
+def notSpace (c : Char) : Bool := c != ' '
 
-def parseX86Inst (env : Env) (s : Str) : Option PInst := do
-  let mut words := splitTop ' ' s
-  let mut pi : PInst := {}
-  -- prefixes
-  let mut fuel := 16
-  while fuel > 0 do
-    fuel := fuel - 1
-    match words with
-    | w :: rest =>
-      if x86PrefixWords.any (·.toList == w) then
-        pi := { pi with prefixes := pi.prefixes ++ [String.ofList w] }
-        words := rest
-        -- `rep {rcx} `
-        if w == "rep".toList ∨ w == "repnz".toList then
-          match words with
-          | ('{' :: body) :: rest2 =>
-            match stripSuffix? ['}'] body with
-            | some rn => let r ← parseReg env rn; pi := { pi with repReg := some r }; words := rest2
-            | none => pure ()
-          | _ => pure ()
-      else fuel := 0
-    | [] => fuel := 0
-  let mn :: opWords := words | none
-  let (m, al) := parseMnemonic mn
-  pi := { pi with mnemonic := m, aliases := al }
-  let opText : Str := (opWords.map fun w => w).foldl (fun acc w => if acc.isEmpty then w else acc ++ [' '] ++ w) []
-  if opText.isEmpty then return pi
-  let chunks := (splitTop ',' opText).map trimL
-  for ch in chunks do
-    match ch with
-    | '{' :: body =>
-      -- `{sae}` / `{rd-sae}` closes the line
-      let r ← stripSuffix? ['}'] body
-      if pi.rounding.isSome then none
-      if !(["sae", "rn-sae", "rd-sae", "ru-sae", "rz-sae"].any (·.toList == r)) then none
-      pi := { pi with rounding := some (String.ofList r) }
-    | _ =>
-      if pi.rounding.isSome then none
-      let (main, suf) := splitOperandSuffix ch
-      let op ← parseX86Op env main
-      let o ← parseOperandSuffixes env { op := op } suf
-      pi := { pi with ops := pi.ops ++ [o] }
-  return pi
+/-- a word that may stand before the mnemonic: an option word, or a braced group (`{vex}`, `{rcx}` after rep) -/
+def isHeadWord (w : Str) : Bool := x86PrefixWordsL.contains w || w.head? == some '{'
+
+/-- the blank-terminated head words at the front of a line, and the rest (which starts at the mnemonic) -/
+def readHeadWords : Nat → Str → List Str × Str
+  | 0, s => ([], s)
+  | f + 1, s =>
+    match s.dropWhile notSpace with
+    | ' ' :: r =>
+      if isHeadWord (s.takeWhile notSpace) then (s.takeWhile notSpace :: (readHeadWords f r).1, (readHeadWords f r).2)
+      else ([], s)
+    | _ => ([], s)
+
+def notCloseBrace (c : Char) : Bool := c != '}'
+def notOpenBrace (c : Char) : Bool := c != '{'
+
+/-- one `{…}` group after an operand: `{z}`, `{1toN}`, or the mask register `{k1}`; a group may be followed by one blank -/
+def suffixStep (env : Env) (o : POperand) (p : Piece) : Option POperand :=
+  if p.1 ≠ some '{' then none
+  else if !(p.2.dropWhile notCloseBrace == ['}'] || p.2.dropWhile notCloseBrace == ['}', ' ']) then none
+  else
+    let body := p.2.takeWhile notCloseBrace
+    if body == ['z'] then (if o.zeroing ∨ o.bcast ≠ 0 then none else some { o with zeroing := true })
+    else match stripPrefix? "1to".toList body with
+      | some n => (parseDec n).bind fun k =>
+          if o.bcast ≠ 0 ∨ !(k = 2 ∨ k = 4 ∨ k = 8 ∨ k = 16 ∨ k = 32 ∨ k = 64) then none else some { o with bcast := k }
+      | none => (parseReg env body).bind fun r =>
+          if o.kmask.isSome ∨ o.zeroing ∨ o.bcast ≠ 0 then none else some { o with kmask := some r }
+
+/-- one operand chunk: the operand text, then ` {k}`[`{z}`] / ` {z}` and ` {1toN}` groups -/
+def readChunk (env : Env) (chunk : Str) : Option POperand :=
+  match chunk.dropWhile notOpenBrace with
+  | [] => (parseX86Op env chunk).map fun op => { op := op }
+  | rest =>
+    (dropLast? ' ' (chunk.takeWhile notOpenBrace)).bind fun main =>
+    (parseX86Op env main).bind fun op =>
+    (lexPieces (fun c => c == '{') rest.length rest).foldlM (suffixStep env) { op := op }
+
+def roundingWords : List String := ["sae", "rn-sae", "rd-sae", "ru-sae", "rz-sae"]
+
+/-- `{sae}` / `{rd-sae}` -/
+def readRounding (chunk : Str) : Option String :=
+  match chunk with
+  | '{' :: body => (dropLast? '}' body).bind fun r => roundingWords.find? (fun w => w.toList == r)
+  | _ => none
+
+/-- the comma separated chunks: operands, and possibly a rounding group as the last one -/
+def readChunks (env : Env) : List Str → Option (List POperand × Option String)
+  | [] => some ([], none)
+  | [c] =>
+    if c.head? = some '{' then (readRounding c).map fun r => ([], some r)
+    else (readChunk env c).map fun o => ([o], none)
+  | c :: d :: rest =>
+    if c.head? = some '{' then none
+    else (readChunk env c).bind fun o => (readChunks env (d :: rest)).map fun (os, r) => (o :: os, r)
+
+/-- a comma piece of the operand list: the first has no comma, the others are `, chunk` -/
+def chunkOfPiece : Piece → Option Str
+  | (none, c) => some c
+  | (some ',', ' ' :: c) => some c
+  | _ => none
+
+def readBracedReg (env : Env) (w : Str) : Option PReg :=
+  match w with
+  | '{' :: body => (dropLast? '}' body).bind (parseReg env)
+  | _ => none
+
+def parseX86Inst (env : Env) (s : Str) : Option PInst :=
+  let hw := readHeadWords (s.length + 1) s
+  let fixedWords := hw.1.filter (fun w => x86PrefixWordsL.contains w)
+  let others := hw.1.filter (fun w => !x86PrefixWordsL.contains w)
+  -- at most one braced group that is no option word: the rep register
+  (match others with
+   | [] => some none
+   | [w] => (readBracedReg env w).map some
+   | _ => none : Option (Option PReg)).bind fun repReg =>
+  let mn := hw.2.takeWhile notSpace
+  if mn.isEmpty then none else
+  let pi : PInst := { prefixes := fixedWords.map String.ofList, repReg := repReg,
+                      mnemonic := (parseMnemonic mn).1, aliases := (parseMnemonic mn).2 }
+  match hw.2.dropWhile notSpace with
+  | [] => some pi
+  | ' ' :: body =>
+    ((lexPieces (fun c => c == ',') body.length body).mapM chunkOfPiece).bind fun chunks =>
+    (readChunks env chunks).map fun (os, r) => { pi with ops := os, rounding := r }
+  | _ => none
 
 def condNames : List String := ["al", "na", "eq", "ne", "hs", "lo", "mi", "pl", "vs", "vc", "hi", "ls", "ge", "lt", "gt", "le"]
 
